@@ -42,6 +42,7 @@ type VC struct {
 	errs   []string
 	trig   map[string]bool
 	noCong map[string]bool
+	replay *replayInfo
 	nlocal int
 	localKeys []string
 	once   sync.Once
